@@ -101,6 +101,11 @@ type customTable struct {
 	extra int                        // members outside the schema table
 }
 
+// onCustomCall, when set, is invoked at the start of every custom complexity function call
+// (the harness process is single-threaded; the walk calls the functions synchronously). Used
+// to count the calls of a walk and to cancel the request context inside the k-th call.
+var onCustomCall func()
+
 func buildCustomTable() (*customTable, error) {
 	ct := &customTable{typ: reflect.TypeOf(graph.ComplexityRoot{}), funcs: map[string][]reflect.Value{}, index: map[string][]int{}}
 	mk := func(ft reflect.Type) []reflect.Value {
@@ -108,6 +113,9 @@ func buildCustomTable() (*customTable, error) {
 		for fn := 1; fn < NumFn; fn++ {
 			fn := fn
 			fns[fn] = reflect.MakeFunc(ft, func(args []reflect.Value) []reflect.Value {
+				if onCustomCall != nil {
+					onCustomCall()
+				}
 				child := int(args[0].Int())
 				var x *int
 				ylen := 0
